@@ -726,3 +726,472 @@ PROPS["C11"] = {
     "assumptions": ["Bind.v models src/parsed_test_case.rs (checked by this run)", "wf_parsed p for parsed tests (parser theorem, see C09/C12)"],
     "trusted_base": [],
 }
+
+
+# ------------------------------------------------------------------ C03 / C13 / C14: what the driver returns
+
+def record_of(trace):
+    """the scripted driver's own record: call number -> list of (signal name, value) in answer order"""
+    rec = {}
+    for t, r in trace:
+        if t == "RECORD":
+            for w in r.split():
+                f = w.split(":")
+                if len(f) >= 3:
+                    rec.setdefault(int(f[0]), []).append((":".join(f[1:-1]), f[-1]))
+    return rec
+
+
+def attribution_oracle(case, trace):
+    """C03/C13 on implementation traces alone: every value reported for a non-virtual signal in a checked row is what
+    the driver recorded for that signal on that very call (or X if the layout never contains it); a row is only
+    returned for a call whose answer has the layout of the first answer"""
+    rec = record_of(trace)
+    sigline = [r for t, r in trace if t == "SIGNALS"]
+    if not sigline or 0 not in rec:
+        return
+    virtual = set(w.split(":")[0] for w in sigline[0].split() if w.split(":")[1] == "V")
+    first = [n for n, _ in rec[0]]
+    if len(set(first)) != len(first):
+        return
+    k = -1
+    last_kind = None
+    for t, r in trace:
+        if t == "CALL":
+            k += 1
+            last_kind = r.split(" ")[0]
+        elif t == "ROW" and last_kind == "RW":
+            parts = r.split(" | ")
+            outs = []
+            for w in parts[2].split():
+                f = w.split(":")
+                outs.append((":".join(f[:-4]), f[-4]))
+            if not outs:
+                continue
+            ans = rec.get(k, [])
+            if [n for n, _ in ans] != first:
+                yield "call %d answered with layout %s instead of the first layout %s, yet a row was returned" % (k, [n for n, _ in ans], first)
+                return
+            d = dict(ans)
+            for name, val in outs:
+                if name in virtual:
+                    continue
+                want = d.get(name, "X")
+                if val != want:
+                    yield "call %d: output reported for %s is %s, the driver returned %s for that signal" % (k, name, val, want)
+                    return
+
+
+def verdict_oracle(case, trace):
+    """C03 verdict rules on every entry the implementation printed: (signal, output, expected, check(), is_checked())"""
+    for line, ins, outs, failing in rows_of(trace):
+        fails = []
+        for name, out, exp, chk, ischk in outs:
+            want = (exp == "X") or (exp == "Z" and out == "Z") or (exp not in ("X", "Z") and out == exp)
+            if (chk == "1") != want:
+                yield "check() of expected=%s output=%s is %s" % (exp, out, chk)
+                return
+            if (ischk == "0") != (exp == "X"):
+                yield "is_checked() of expected=%s is %s" % (exp, ischk)
+                return
+            if not want:
+                fails.append(name)
+        got = failing.replace("failing=", "").strip()
+        if got != ",".join(fails):
+            yield "failing_outputs() = [%s], the entries that do not pass are [%s]" % (got, ",".join(fails))
+            return
+
+
+PROPS["C03"] = {
+    "cases": run_family("c03", 500, 20000, [
+        {"bigvals": True, "pZX": 0.2, "pXout": 0.3, "pZout": 0.15, "reads": 0.0, "maxdepth": 1, "n_bidir": 1, "pC": 0.05, "pX": 0.05, "wide": True},
+        {"bigvals": True, "pZX": 0.15, "pZout": 0.1, "reads": 0.3, "pZXread": 0.0, "maxdepth": 2, "declare": 0.2},
+    ]),
+    "tags": ("NEW", "ROW", "ITEM", "END"),
+    "nontrivial": nontrivial_rows(2),
+    "oracles": [attribution_oracle, verdict_oracle, no_panic_oracle],
+    "rule": "seeded tests whose scripted driver answers with a fixed layout = a shuffled subset of the output-capable signals (bidirectional included), values from the 27 64-bit boundary values, "
+            "small numbers, Z and X, expected values incl. X and Z; the harness calls the real check(), is_checked(), failing_outputs() on every entry and prints them; oracle: the driver's own record of "
+            "what it returned for which signal on which call; non-trivial = at least 2 rows",
+    "proved": "no value is ever attributed to a signal other than the one the driver reported it for in this call (for every driver); under a stable layout the value is the driver's value for that signal or X if never supplied; "
+              "check() / is_checked() / failing_outputs() truth tables for all values",
+    "validated_only": "that build_output_indices / extract_output_values / ExpectedValue::check of the crate behave as Iter.v / Ast.v",
+    "assumptions": ["Iter.v models src/data_row_iterator.rs, Ast.expected_check models src/value.rs (checked by this run)"],
+    "trusted_base": [],
+}
+
+PROPS["C13"] = {
+    "cases": add_faults(run_family("c13", 600, 20000, [
+        {"pC": 0.15, "pX": 0.1, "maxdepth": 2, "reads": 0.3, "declare": 0.2, "full_layout": False},
+        {"pC": 0.1, "maxdepth": 3, "reads": 0.2, "echo": 1.0},
+    ]), ["err", "drop", "add", "dup", "swap", "subst"], 0.8, cont=0.4),
+    "tags": ("NEW", "CALL", "ROW", "ITEM", "END"),
+    "nontrivial": lambda c, t: any(x == "ITEM" for x, _ in t) or any(x == "NEW" and r.startswith("err") for x, r in t),
+    "oracles": [attribution_oracle, protocol_oracle, no_panic_oracle],
+    "rule": "seeded tests with fault plans: at a random call index (constructor, checked rows, mid-clock writes) the scripted driver fails with an error code, or deviates from its first layout by dropping, "
+            "adding, duplicating, swapping or substituting an output; 40% of the callers keep iterating after the error item; corpus: the panic-38 witness; oracle: driver's own record (no misattribution, "
+            "no row on a deviating answer), call/row protocol; non-trivial = an error item or a constructor error occurred",
+    "proved": "a driver error is passed through unchanged as the item of exactly the failing call (constructor included); items depend on the driver only through its answers to the calls made; "
+              "a deviating answer (given a first answer of distinct expected signals) never yields a row but WrongNumberOfOutputs / WrongOutputOrder / an expression error; extraction never panics for any answers; no misattribution for every driver",
+    "validated_only": "that the crate behaves as Iter.v under these fault plans (differential), including the fixed defect d850e2a",
+    "assumptions": ["Iter.v models src/data_row_iterator.rs (checked by this run)"],
+    "trusted_base": [],
+}
+
+PROPS["C14"] = {
+    "cases": run_family("c14", 500, 20000, [
+        {"declare": 1.0, "wrow": 0.3, "wlet": 0.25, "reads": 0.6, "shadow_out": 0.5, "pZX": 0.12, "pZXread": 0.05, "echo": 1.0, "maxdepth": 2, "pC": 0.1},
+        {"declare": 0.8, "reads": 0.4, "shadow_out": 0.6, "pZX": 0.05, "maxdepth": 3, "pX": 0.1},
+    ]),
+    "tags": RUN_TAGS,
+    "nontrivial": lambda c, t: "declare" in c.get("src", "") and any(x == "ROW" for x, _ in t),
+    "oracles": [no_panic_oracle],
+    "rule": "seeded programs with 1-3 declare statements at random positions (top, inside loops, after rows), expressions over output-capable signals and over names that are also program variables (let Q = ...), "
+            "with and without a column for the virtual signal; drivers whose answers vary per call and contain Z / X; non-trivial = has a declaration and yields a row",
+    "proved": "value of a virtual signal = its expression over THIS call's outputs with no program variables; blind to variables; variable maps restored after every evaluation; Z/X read -> error item; "
+              "expected value by column name or X (C06), 64 bits (C07)",
+    "validated_only": "that declarations anywhere among the statements are collected by the parser independently of position (the parser model is compared on every case); that the crate evaluates as the model",
+    "assumptions": ["Iter.v / Eval.v / Parser.v model the crate (checked by this run)"],
+    "trusted_base": [],
+}
+
+PROPS["C10"] = {
+    "cases": add_faults(run_family("c10", 700, 30000, [
+        {"div": True, "small": False, "reads": 0.5, "pZXread": 0.1, "random": 0.3, "declare": 0.3, "wide": True, "bigvals": True, "shift_small": False, "maxdepth": 3},
+        {"div": True, "small": False, "reads": 0.3, "n_bidir": 2, "pC": 0.2, "pX": 0.2, "wide": True, "odd_names": True},
+        {"div": True, "small": True, "reads": 0.6, "shadow_out": 0.4, "maxdepth": 4, "drop_read": 0.1},
+    ]), ["err", "drop", "add", "dup", "swap", "subst"], 0.3, cont=0.5),
+    "tags": RUN_TAGS,
+    "nontrivial": nontrivial_rows(1),
+    "oracles": [no_panic_oracle],
+    "release": True,
+    "rule": "seeded accepted tests with everything that can go wrong at run time: division and remainder by arbitrary (also zero) values, 64-bit boundary operands, shift counts of any size, random(n) with n <= 1, "
+            "signExt, reads of Z/X outputs, variables first assigned inside loops/whiles that do not run, widths 1..64, bidirectional signals, odd signal names, drivers with faults and layout deviations, "
+            "callers that keep going after IO errors; run under catch_unwind in the debug profile (overflow checks on) and, in the thorough tier, the release profile; non-trivial = at least one row or an error item",
+    "proved": "END TO END: text that parses + signal list that binds => constructor and every next() never panic, for every driver, generator, write_input variant, number of calls and fuel (all 14 panic sites of the model unreachable); "
+              "possible error items enumerated; expression failures (division by zero, unknown variable, empty random range, unimplemented function) are Err results",
+    "validated_only": "completeness of the panic-site inventory of the model w.r.t. the Rust source (tools/panic_audit.py lists the panic-capable constructs of src/ against the committed inventory); panics inside dependencies",
+    "assumptions": ["the model marks every panic-capable construct of the crate (audited)", "Iter.v etc. model the crate (checked by this run)"],
+    "trusted_base": [],
+}
+
+
+# ------------------------------------------------------------------ C09 / C12: texts
+
+ALPHABET = ["loop", "while", "end", "repeat", "let", "declare", "bits", "resetRandom", "program", "init", "memory", "def", "call",
+            "C", "X", "Z", "c", "a", "Q", "A", "ite", "random", "signExt", "foo", "n", "0", "1", "07", "09", "0x1F", "0x", "0b101", "0b2",
+            "9223372036854775807", "9223372036854775808", "65", "64", "(", ")", ",", ";", "=", "!=", "<", "<<", "<=", ">", ">>", ">=",
+            "+", "-", "*", "/", "%", "&", "|", "^", "!", "~", "#", "$", "_", " ", "  ", "\t", "\r", "\n", "\n", "\r\n", "é", "汉", "\U0001F600", "٣", "a٣"]
+
+
+def mutate_text(rng, src):
+    """one edit of a valid program text; returns (text, description)"""
+    import re as _re
+    toks = _re.findall(r"[A-Za-z_][A-Za-z_0-9]*|0[xX][0-9a-fA-F]+|0[bB][01]+|[0-9]+|<<|>>|!=|<=|>=|\r\n|\n|[ \t\r]+|#[^\n]*|.", src, _re.S)
+    x = rng.random()
+    if x < 0.2 and toks:
+        i = rng.randrange(len(toks))
+        return "".join(toks[:i] + toks[i + 1:]), "delete token %r" % toks[i]
+    if x < 0.35:
+        i = rng.randrange(len(src) + 1)
+        return src[:i], "truncate at byte %d" % i
+    if x < 0.5 and toks:
+        i = rng.randrange(len(toks))
+        return "".join(toks[:i] + [rng.choice(ALPHABET)] + toks[i + 1:]), "replace token %r" % toks[i]
+    if x < 0.65 and toks:
+        i = rng.randrange(len(toks) + 1)
+        return "".join(toks[:i] + [rng.choice(ALPHABET)] + toks[i:]), "insert token"
+    if x < 0.75 and toks:
+        i = rng.randrange(len(toks))
+        return "".join(toks[:i] + [toks[i]] + toks[i:]), "duplicate token %r" % toks[i]
+    if x < 0.85 and len(toks) > 1:
+        i = rng.randrange(len(toks) - 1)
+        t2 = list(toks)
+        t2[i], t2[i + 1] = t2[i + 1], t2[i]
+        return "".join(t2), "swap tokens"
+    return src.rstrip("\n"), "strip trailing newlines"
+
+
+def text_cases(prefix, seed, n_valid, n_mut, n_soup, exhaustive=0):
+    cases = []
+    rng = random.Random(seed ^ 0x7E87)
+    valid = []
+    for i in range(n_valid):
+        c = gen.gen_run_case("%s-v%d" % (prefix, i), (seed * 7919 + i) & 0x7FFFFFFF,
+                             {"fancy": i % 2 == 0, "radix_mix": True, "declare": 0.2, "random": 0.2, "reads": 0.3, "crlf": True,
+                              "lead_blank": i % 3 == 0, "trailing_nl": 0.7, "redundant": 0.2, "odd_names": i % 5 == 0})
+        valid.append(c["src"])
+        cases.append({"id": c["id"], "kind": "parse", "src": c["src"], "text_kind": "valid"})
+    for i in range(n_mut):
+        src, what = mutate_text(rng, rng.choice(valid))
+        cases.append({"id": "%s-m%d" % (prefix, i), "kind": "parse", "src": src, "text_kind": "mutation", "what": what})
+    for i in range(n_soup):
+        k = rng.randrange(0, 14)
+        head = rng.choice(["A Q\n", "A Q\n", "A\n", "", " A  Q \r\n", "\n\nA Q\n", "A A\n", "A Q"])
+        body = "".join(rng.choice(ALPHABET) + rng.choice(["", " ", " "]) for _ in range(k))
+        cases.append({"id": "%s-s%d" % (prefix, i), "kind": "parse", "src": head + body, "text_kind": "soup"})
+    if exhaustive:
+        small = ["loop", "end", "(", ")", "1", "C", "a", ",", ";", "=", "let", "\n", " ", "<", "!", "while", "bits", "0x", "$", "é", "repeat", "declare", "program", "-"]
+        import itertools
+        n = 0
+        for L in range(1, exhaustive + 1):
+            for combo in itertools.product(small, repeat=L):
+                cases.append({"id": "%s-x%d" % (prefix, n), "kind": "parse", "src": "A Q\n" + " ".join(combo), "text_kind": "exhaustive"})
+                n += 1
+    return cases
+
+
+def span_oracle(case, trace):
+    for t, r in trace:
+        if t == "SPANS" and "INVALID" in r:
+            yield "an error location is outside the text or not on a character boundary"
+        if t == "RENDER" and "FAILED" in r:
+            yield "the parse error cannot be rendered as a diagnostic"
+
+
+def text_classify(case):
+    return case.get("text_kind", "?")
+
+
+PROPS["C09"] = {
+    "cases": lambda seed, tier: text_cases("c09", seed, 150, 1200, 700, 0) if tier == "quick" else text_cases("c09", seed, 3000, 60000, 30000, 3),
+    "tags": ("PARSE", "HEADER", "PLINES"),
+    "nontrivial": lambda c, t: True,
+    "oracles": [no_panic_oracle, span_oracle],
+    "rule": "texts: (a) valid programs in fancy layouts (CRLF, comments, blank lines, mixed radix, non-ASCII names), (b) single edits of them (token deleted / replaced / inserted / duplicated / swapped, "
+            "truncation at every kind of position, trailing newline stripped), (c) token soup over an alphabet of all keywords incl. program/init/memory/def/call, C X Z, literals incl. 0x, 09, 2^63, operators, "
+            "$, blank characters, 2-, 3-, 4-byte characters and an Arabic-Indic digit, after various headers; thorough: exhaustive token strings up to length 3 over 24 symbols. The verdict, the error kind "
+            "with its token kinds and every error SPAN are compared with the model; each error is also rendered with miette's graphical handler under catch_unwind; distinct = hash of the projection",
+    "proved": "parse never panics and never runs out of fuel (terminates) for every string; every error span lies within the text with start <= end; token spans are offsets of character boundaries; binding never panics",
+    "validated_only": "that the logos-generated lexers equal the hand-written maximal-munch scanner (token streams compared through the verif-hooks lexer functions in C20's check and implicitly here through spans); "
+                      "that miette renders every error (exercised, not modelled); native stack exhaustion on deeply nested input is out of scope",
+    "assumptions": ["Lexer.v / Parser.v model src/lexer, src/parser (checked by this run: verdict, kind and spans of every case)"],
+    "trusted_base": ["logos 0.14 automata, miette renderer (not modelled)"],
+}
+
+
+# ------------------------------------------------------------------ C12: grammar-breaking edits
+
+def breaking_edits(rng, src):
+    """edits of a VALID program text that are grammar-breaking by construction -> list of (text, what)"""
+    import re as _re
+    out = []
+    lines = src.split("\n")
+    hdr_i = next((i for i, l in enumerate(lines) if l.strip()), 0)
+    body = lines[hdr_i + 1:]
+    def join(b):
+        return "\n".join(lines[:hdr_i + 1] + b)
+    # unterminated / wrongly terminated blocks, truncation inside a block
+    opens = [i for i, l in enumerate(body) if _re.match(r"\s*(loop|while)\b", l)]
+    ends = [i for i, l in enumerate(body) if _re.match(r"\s*end\s+(loop|while)\b", l)]
+    if ends:
+        i = rng.choice(ends)
+        out.append((join(body[:i] + body[i + 1:]), "end line removed"))
+        l = body[i]
+        sw = l.replace("loop", "\0").replace("while", "loop").replace("\0", "while")
+        out.append((join(body[:i] + [sw] + body[i + 1:]), "end loop <-> end while"))
+        out.append((join(body[:i] + [_re.sub(r"end\s+(loop|while)", "end", l)] + body[i + 1:]), "end without keyword"))
+    if opens and ends:
+        o = rng.choice(opens)
+        later = [e for e in ends if e > o]
+        if later:
+            cut = rng.randrange(o + 1, later[0] + 1)
+            t = join(body[:cut])
+            out.append((t.rstrip("\n") + "\n", "cut off inside a block (with newline)"))
+            out.append((t.rstrip("\n").rstrip("\r"), "cut off inside a block (no newline)"))
+    out.append((src.rstrip("\r\n") + "\nend loop\n", "end at top level"))
+    # punctuation
+    for ch, what in ((";", "missing ;"), (")", "missing )"), (",", "missing ,")):
+        pos = [m.start() for m in _re.finditer(_re.escape(ch), "\n".join(body)) if "#" not in "\n".join(body)[:m.start()].split("\n")[-1]]
+        if pos:
+            k = rng.choice(pos)
+            b = "\n".join(body)
+            out.append((join((b[:k] + b[k + 1:]).split("\n")), what))
+    b = "\n".join(body)
+    m = list(_re.finditer(r"\bite\s*\(", b))
+    if m and "#" not in b:
+        k = rng.choice(m)
+        out.append((join((b[:k.start()] + "nosuchfn(" + b[k.end():]).split("\n")), "unknown function"))
+    rows = [i for i, l in enumerate(body) if l.strip() and not _re.match(r"\s*(loop|while|end|let|declare|resetRandom|repeat|#)", l)]
+    if rows:
+        i = rng.choice(rows)
+        out.append((join(body[:i] + [body[i].split("#")[0] + " 1"] + body[i + 1:]), "row with one entry too many"))
+        first = body[i].split("#")[0].split()
+        if len(first) > 1 and not any(c in body[i] for c in "(),"):
+            out.append((join(body[:i] + [" ".join(first[:-1])] + body[i + 1:]), "row with one entry too few"))
+        out.append((join(body[:i] + [body[i].split("#")[0] + " 9223372036854775808"[0:0]] + ["let big = 9223372036854775808;"] + body[i + 1:]), "literal that does not fit in 64 bits"))
+        out.append((join(body[:i] + ["let w = 1; bits(65,1)"] + body[i + 1:]), "statement not followed by a line break / bits width 65"))
+    hdr = lines[hdr_i].split()
+    if hdr:
+        out.append(("\n".join(lines[:hdr_i] + [lines[hdr_i].rstrip("\r") + " " + hdr[0]] + lines[hdr_i + 1:]), "duplicated header name"))
+        out.append(("\n".join(lines[:hdr_i] + [lines[hdr_i].rstrip("\r\n")]), "header not followed by a line break"))
+    out.append((src.rstrip("\r\n") + "\ndeclare VV = 1;\ndeclare VV = 2;\n", "duplicated declare name"))
+    return out
+
+
+def c12_cases(seed, tier):
+    rng = random.Random(seed ^ 0xC12)
+    n = 120 if tier == "quick" else 6000
+    cases = []
+    for i in range(n):
+        c = gen.gen_run_case("c12-%d" % i, (seed * 104729 + i) & 0x7FFFFFFF,
+                             {"fancy": False, "crlf": False, "declare": 0.2, "maxdepth": 3, "budget": 14, "wrow": 0.35, "trailing_nl": 0.8, "radix_mix": i % 2 == 0, "pbits": 0.1})
+        cases.append({"id": c["id"] + "-valid", "kind": "parse", "src": c["src"], "c12": "valid"})
+        for j, (t, what) in enumerate(breaking_edits(rng, c["src"])):
+            cases.append({"id": "%s-e%d" % (c["id"], j), "kind": "parse", "src": t, "c12": what})
+    return cases
+
+
+def c12_oracle(case, trace):
+    what = case.get("c12")
+    verdict = [r for t, r in trace if t == "PARSE"]
+    if not verdict:
+        return
+    if what == "valid":
+        if not verdict[0].startswith("ok"):
+            yield "generator error: a valid program was rejected: %s" % verdict[0]
+    elif what is not None and verdict[0].startswith("ok"):
+        yield "a malformed program (%s) was ACCEPTED" % what
+
+
+def c12_classify(case):
+    return case.get("c12", "?")
+
+
+PROPS["C12"] = {
+    "cases": c12_cases,
+    "tags": ("PARSE",),
+    "nontrivial": lambda c, t: c.get("c12") != "valid",
+    "oracles": [c12_oracle, no_panic_oracle],
+    "rule": "from each seeded valid program, every kind of single grammar-breaking edit the property lists: an end line removed, end loop <-> end while, end without keyword, the text cut off at a random line inside a block "
+            "(with and without a trailing newline), end at top level, a ';' ')' or ',' removed, an unknown function, a row with one entry too many / too few, a literal of 2^63, bits(65,..), two statements on a line, "
+            "a duplicated header name, a header without line break, a duplicated declare name; the edit is invalid BY CONSTRUCTION, so the oracle is the generator's own verdict (a third opinion next to model and implementation); "
+            "non-trivial = an edited text; distinct = hash of the text's verdict and error kind",
+    "proved": "see props/C12.v: every accepted text is derivable in the grammar Grammar.v; being in the grammar excludes each malformation (blocks matched, no end at top level, row width exact, calls well-formed, "
+              "literals fit, bits <= 64); header / declare names distinct (wf_parsed); header followed by a line break",
+    "validated_only": "that the crate's parser accepts exactly what the model parser accepts (verdict and error kind compared on every case)",
+    "assumptions": ["Lexer.v / Parser.v model the crate's lexer and parser (checked by this run)"],
+    "trusted_base": [],
+}
+
+
+# ------------------------------------------------------------------ C19 / C20: layout
+
+def layout_pair_cases(prefix, seed, n):
+    """pairs (plain layout, fancy layout) of the same program, same signals, same driver script"""
+    cases = []
+    for i in range(n):
+        s = (seed * 15485863 + i * 31) & 0x7FFFFFFF
+        base_profile = {"declare": 0.2, "random": 0.0, "reads": 0.3, "maxdepth": 3, "pbits": 0.1, "pC": 0.1, "pX": 0.1}
+        a = gen.gen_run_case("%s-%d-a" % (prefix, i), s, dict(base_profile, fancy=False, trailing_nl=1.0))
+        rng = random.Random(s ^ 0x1A70)
+        body, cols = a["gen"]["body"], a["gen"]["cols"]
+        lay = gen.Layout(rng, fancy=True, crlf=rng.random() < 0.4, radix_mix=True, redundant=0.0,
+                         trailing_nl=rng.random() < 0.7, lead_blank=rng.randrange(0, 3))
+        text = lay.render(cols, body)
+        b = dict(a)
+        b["id"] = "%s-%d-b" % (prefix, i)
+        b["src"] = text
+        b["gen"] = {"row_lines": lay.row_lines, "body": body, "cols": cols}
+        a["pair"] = b["id"]
+        b["pair"] = a["id"]
+        cases += [a, b]
+    return cases
+
+
+def strip_line(row):
+    return row.split(" | ", 1)[1] if " | " in row else row
+
+
+def layout_pair_oracle(cases, impl):
+    """C20 on implementation traces alone: the two layouts of one program give the same verdict and the same
+    rows except `line`; the lines shift as the printer's records of physical lines say (C19)"""
+    byid = {c["id"]: c for c in cases}
+    for c in cases:
+        if not c["id"].endswith("-a") or c.get("pair") not in byid:
+            continue
+        d = byid[c["pair"]]
+        ta, tb = impl.get(c["id"]) or [], impl.get(d["id"]) or []
+        pa = [r for t, r in ta if t in ("PARSE", "BIND")]
+        pb = [r for t, r in tb if t in ("PARSE", "BIND")]
+        if [x.split()[0] for x in pa] != [x.split()[0] for x in pb]:
+            yield d, "the re-laid-out program has a different verdict: %s vs %s" % (pa, pb)
+            continue
+        ra = [strip_line(r) for t, r in ta if t == "ROW"]
+        rb = [strip_line(r) for t, r in tb if t == "ROW"]
+        if ra != rb:
+            k = next((i for i, (x, y) in enumerate(zip(ra, rb)) if x != y), min(len(ra), len(rb)))
+            yield d, "the re-laid-out program yields different rows (first difference at row %d)" % k
+            continue
+        ia = [r for t, r in ta if t == "ITEM"]
+        ib = [r for t, r in tb if t == "ITEM"]
+        if ia != ib:
+            yield d, "the re-laid-out program yields different items"
+
+
+def line_oracle(case, trace):
+    """C19: the line of every row statement is the physical line the printer put it on"""
+    g = case.get("gen")
+    if not g:
+        return
+    pl = [r for t, r in trace if t == "PLINES"]
+    if not pl:
+        return
+    got = pl[0].split()
+    want = [str(x) for x in g["row_lines"]]
+    if got != want:
+        yield "row statements are on physical lines %s but the parser recorded %s" % (want, got)
+        return
+    allowed = set(want)
+    for line, _, _, _ in rows_of(trace):
+        if line not in allowed:
+            yield "a yielded row reports line %s, which is not the line of any data row" % line
+            return
+
+
+PROPS["C19"] = {
+    "cases": lambda seed, tier: layout_pair_cases("c19", seed, 250 if tier == "quick" else 10000),
+    "tags": ("PARSE", "PLINES", "ROW", "ITEM", "END"),
+    "nontrivial": nontrivial_rows(1),
+    "oracles": [line_oracle, no_panic_oracle],
+    "rule": "seeded programs printed twice: plainly, and with blank and comment-only lines after (and before) the header, comments at line ends, CRLF line ends, tabs and carriage returns as blank space, "
+            "rows as the last line with or without newline, rows at loop depth 0-3 and as repeat rows; the printer records the physical 1-based line of every row statement and the oracle compares it with "
+            "the parser's line fields and with the line of every yielded row (all X/C expansions and loop iterations); non-trivial = at least one row",
+    "proved": "the Eol tokens are exactly the newline characters, in order, and nothing else contains one; the header's line counter is 1 + newlines consumed; every expansion of a row keeps its line; "
+              "(with proofs/ParserLinesProof.v when present in props/C19.v) the line recorded for a row = 1 + newlines before its first token",
+    "validated_only": "the parser half where not yet in props/C19.v; .dig sources: the count is relative to the test's own source text because load_test parses that text alone (C16_load_test)",
+    "assumptions": ["Lexer.v / Parser.v model the crate (checked by this run)"],
+    "trusted_base": [],
+}
+
+PROPS["C20"] = {
+    "cases": lambda seed, tier: layout_pair_cases("c20", seed, 300 if tier == "quick" else 12000) + lex_cases(seed, 300 if tier == "quick" else 20000),
+    "tags": ("PARSE", "BIND", "ROW", "ITEM", "END", "TOK"),
+    "nontrivial": lambda c, t: True,
+    "oracles": [no_panic_oracle],
+    "pair_oracles": [layout_pair_oracle],
+    "rule": "(1) pairs (program, re-laid-out variant: other amounts of blank space incl. tabs and CR, comments appended to lines, blank and comment-only lines inserted, every literal re-spelled in a random radix "
+            "with random letter case): both go through the implementation and are compared pairwise (same verdict, same rows except line) and each against the model; (2) token-boundary stress texts "
+            "(0x1F next to identifiers, << vs < <, != vs ! =, keywords as prefixes of identifiers, CR before LF, non-ASCII digits in identifiers) lexed by the crate's REAL logos lexers through the verif-hooks "
+            "functions and by the model scanner, token by token with spans",
+    "proved": "token sequence (kinds and texts) invariant under: any change of a non-empty blank run, insertion of blank space at a separator / before a comment / at text end, appending a comment to a line; "
+              "the value of a literal depends only on its digits (radix spelling theorems); (with proofs/ParserLayoutProof.v when present in props/C20.v) the parser's result depends on kinds and texts only",
+    "validated_only": "that logos' generated automata compute the same tokens as the hand-written scanner (compared token by token on the stress texts and on every program of the run); "
+                      "the effect of inserted blank lines on the parser (only `line` shifts) where not yet proved",
+    "assumptions": ["Lexer.v models the logos lexers (checked token by token by this run)"],
+    "trusted_base": ["logos 0.14 (the generated DFA is not modelled)"],
+}
+
+
+def lex_cases(seed, n):
+    rng = random.Random(seed ^ 0x1E8)
+    frag = ["0x1F", "0X1f", "0b101", "0b2", "017", "09", "0", "00", "0x", "0xg", "1a", "a1", "_", "_1", "loop", "looper", "end1", "endloop", "let", "lets",
+            "<<", "< <", "<<<", "<=", "< =", "!=", "! =", "!", "=", "==", ">>", ">=", ">", "&", "|", "^", "~", "+", "-", "*", "/", "%", "(", ")", ",", ";",
+            " ", "\t", "\r", "\r\n", "\n", "\f", "#", "# c\n", "#\r\n", "$", "@", "é", "a٣", "٣", "x०y", "bits", "Bits", "resetRandom", "resetrandom",
+            "C", "c", "X", "Z", "9223372036854775808", "\U0001F600", "汉", "a_b", "A_out"]
+    cases = []
+    for i in range(n):
+        k = rng.randrange(1, 12)
+        text = "".join(rng.choice(frag) for _ in range(k))
+        cases.append({"id": "lex-%d" % i, "kind": "lex" if i % 4 else "hlex", "src": text})
+    return cases
